@@ -11,6 +11,7 @@
      path   := "." | seg(/seg)*
      action := W <path> <hex> | M <path> <ro> | X <path> | C <path> | E <hexk> <hexv> | P <path> <keep>
              | D <id> <bad> | G <h> <neg> | O | F | K | T | Z | N (kill) | Y (kill; wait) | U (wait) | H <neg> <hexprog> (exec) | I <neg> <hexprog> action
+             | L <path> <hextarget> (symlink) | R <path> (rm)
      -> per script "<verdict> regs=.. runs=.. bg=../../.. wp=<0|1> setup=<env>@<tree> probes=<n>(;<cwd>@<env>@<tree>)* conds=.. final=<tree>"
         joined by " | ", then " || root=<0|1> removals=<n> cancelled=<0|1> refcount=<n> alone=<ok|DIFF>"
 
@@ -19,6 +20,13 @@
         res= int= intok= kill= ret= verdict=
 
    empty <retain> <hascancel> -> root=<0|1> removals=<n> cancelled=<0|1>     (RunT without any script)
+
+   cleanup <dirsonly:0|1|now> <isroot> M <n> <path>* N <n> (entry)* DIR <path>       (TsCleanup.v: removeAll(DIR) on a whole file system)
+     entry := <path> d <perm> | <path> f <perm> <hexdata> | <path> l <path>;  paths are absolute, "." is the root; perm decimal
+     -> the resulting table, sorted: <path>:d:<perm> | <path>:f:<perm>:<hex> | <path>:l:<target>, joined by ","
+
+   history <n> (<now> <eps> <D|->)*       (TsRuns.v: RunT calls made one after the other by one process)
+     -> per call "grace=<ns> ctx=<ns|->", joined by " | ", for the source as it is (run_calls_now)
 
    ta <C> <K> <sigma> <tsig> <tend>   (a process that ignores the interrupt; times in ns from the start)
      -> accepted=<0|1>: is there a run of the timed automaton (TsTimed.v) with slack sigma in which the
@@ -64,6 +72,8 @@ let rec parse_action () : action =
   | "O" -> AProbe | "F" -> AFail | "K" -> ASkip | "T" -> AStop | "Z" -> APanic
   | "N" -> AKill | "Y" -> AKillWait | "U" -> AWait
   | "H" -> let neg = bool_of (next ()) in AExec (neg, bytes_of_hex (next ()))
+  | "L" -> let p = path_of_string (next ()) in ASymlink (p, bytes_of_hex (next ()))
+  | "R" -> ARm (path_of_string (next ()))
   | "I" -> let neg = bool_of (next ()) in let prog = bytes_of_hex (next ()) in AIfExec (neg, prog, parse_action ())
   | t -> failwith ("bad action " ^ t)
 
@@ -104,7 +114,8 @@ let render_tree (t : tree) : string =
   let l = List.map (fun (p, n) ->
     (string_of_path p, match n with
       | Dir ro -> if ro then "D" else "d"
-      | File (d, x) -> (if x then "x" else "f") ^ hex_of_bytes d)) t in
+      | File (d, x) -> (if x then "x" else "f") ^ hex_of_bytes d
+      | Link tg -> "l" ^ hex_of_bytes tg)) t in
   let l = List.sort Stdlib.compare (List.map (fun (p, k) -> p ^ ":" ^ k) l) in
   "[" ^ String.concat "," l ^ "]"
 
@@ -176,9 +187,14 @@ let do_deadline () : string =
       | None -> "never" | Some XOk -> "ok" | Some XUnexpectedSuccess -> "unexpected-success"
       | Some XUnexpectedFailure -> "unexpected-failure" | Some (XTimedOut _) -> "timed-out" in
     let valid = match uexec (uparams_of p) r.trace uinit with Some _ -> "1" | None -> "0" in
-    Printf.sprintf "res=%s int=%s intok=%s kill=%s ret=%s verdict=%s trace=%s"
+    let vs = function
+      | None -> "never" | Some XOk -> "ok" | Some XUnexpectedSuccess -> "unexpected-success"
+      | Some XUnexpectedFailure -> "unexpected-failure" | Some (XTimedOut _) -> "timed-out" in
+    (* srcverdict: with the attribution rule the source has now (generated constant) *)
+    let sv = vs (fg_exec_gen interrupt_error_wins p (orc d) waitok neg) in
+    Printf.sprintf "res=%s int=%s intok=%s kill=%s ret=%s verdict=%s srcverdict=%s trace=%s"
       (match r.res with RWait -> "wait" | RCtx -> "ctx" | RNever -> "never")
-      (zopt r.t_int) (b01 r.int_ok) (zopt r.t_kill) (zopt r.t_ret) v valid in
+      (zopt r.t_int) (b01 r.int_ok) (zopt r.t_kill) (zopt r.t_ret) v sv valid in
   Printf.sprintf "grace=%d ctx=%d kd=%d msg=%s | %s | %s"
     (int_of_z (grace (z_of_int until))) (int_of_z (ctx_deadline Z0 (z_of_int eps) (z_of_int until)))
     (int_of_z (fg_kill_delay (z_of_int until))) (hex_of_bytes timed_out_message) (show 0) (show sigma)
@@ -189,6 +205,34 @@ let do_empty () : string =
               continue_on_error = false; has_cancel = hc; is_root = true; hostenv = []; hosttab = []; helper = [] } in
   let st = start cfg [] in
   Printf.sprintf "root=%s removals=%d cancelled=%s" (b01 st.sh.root_present) (int_of_nat st.sh.root_removals) (b01 st.sh.cancelled)
+
+let do_cleanup () : string =
+  let flag = (match next () with "now" -> remove_all_chmods_dirs_only | t -> bool_of t) in
+  let root = bool_of (next ()) in
+  expect "M"; let n = next_int () in
+  let mine = times n (fun () -> path_of_string (next ())) in
+  expect "N"; let n = next_int () in
+  let fs = times n (fun () ->
+    let p = path_of_string (next ()) in
+    match next () with
+    | "d" -> (p, GDir (n_of_int (next_int ())))
+    | "f" -> let m = next_int () in (p, GFile (n_of_int m, bytes_of_hex (next ())))
+    | "l" -> (p, GLink (path_of_string (next ())))
+    | t -> failwith ("bad entry kind " ^ t)) in
+  expect "DIR"; let dir = path_of_string (next ()) in
+  let out = remove_all_at flag root mine fs dir in
+  let l = List.map (fun (p, n) -> string_of_path p ^ (match n with
+    | GDir m -> Printf.sprintf ":d:%d" (int_of_n m)
+    | GFile (m, d) -> Printf.sprintf ":f:%d:%s" (int_of_n m) (hex_of_bytes d)
+    | GLink t -> ":l:" ^ string_of_path t)) out in
+  String.concat "," (List.sort Stdlib.compare l)
+
+let do_history () : string =
+  let n = next_int () in
+  let cs = times n (fun () ->
+    let now = next_int () in let eps = next_int () in
+    { c_now = z_of_int now; c_eps = z_of_int eps; c_deadline = parse_zopt (next ()) }) in
+  String.concat " | " (List.map (fun r -> Printf.sprintf "grace=%d ctx=%s" (int_of_z r.r_grace) (zopt r.r_ctx)) (run_calls_now cs))
 
 let do_ta () : string =
   let c = next_int () in let k = next_int () in let sg = next_int () in
@@ -224,6 +268,8 @@ let () = serve (fun ts ->
   | "batch" -> do_batch ()
   | "deadline" -> do_deadline ()
   | "empty" -> do_empty ()
+  | "cleanup" -> do_cleanup ()
+  | "history" -> do_history ()
   | "ta" -> do_ta ()
   | "ucheck" -> do_ucheck ()
   | _ -> "BAD-REQUEST")
